@@ -10,6 +10,7 @@ RUNTIME = r'''
 LOG = []          # ordered effect log of the current run
 TRACE = []        # twin: ordered ('bind'|'meta', name, value)
 TICKS = {}
+LATEST = {}       # twin: live latest value of every name bound so far in this run
 SUBST = {}        # twin: how SITE substitutes values (C04/C16)
 LOCALNAMES = frozenset()
 G = 100
@@ -20,7 +21,13 @@ class ERR(Exception):
 class BERR(BaseException):
     pass
 
+class BUDGET(BaseException):
+    """Raised by the helpers when a run exceeds its step budget (an override can make a loop endless)."""
+
+
 def E(k, v):
+    if len(LOG) > 300:
+        raise BUDGET("effect budget")
     LOG.append(("E", k, FREEZE(v)))
     return v
 
@@ -31,8 +38,14 @@ def R(n):
 def T(k, n):
     c = TICKS.get(k, 0)
     TICKS[k] = c + 1
+    if c > 40:
+        raise BUDGET("tick budget")
     n = n if isinstance(n, int) else 1
     return max(0, (n % 3) - c)
+
+def abs(v):
+    """Module global that shadows a builtin (ptera must read globals before builtins)."""
+    return v + 1000 if isinstance(v, int) else v
 
 def PAIR(v): return (v, v + 1)
 def LST(v): return [v, v + 1]
@@ -91,21 +104,21 @@ def SNAP(loc):
     return tuple(sorted((k, FREEZE(v)) for k, v in loc.items() if k in LOCALNAMES))
 
 def SITE(sid, name, form, value):
-    TRACE.append(("bind", name, FREEZE(value, 0, True), form, sid))
     fn = SUBST.get("site")
-    if fn is not None:
-        return fn(sid, name, form, value)
-    return value
+    new = fn(sid, name, form, value) if fn is not None else value
+    LATEST[name] = new
+    # the context values are frozen *now*, when the real event would be delivered
+    TRACE.append(("bind", name, FREEZE(new), form, sid, {k: FREEZE(v) for k, v in LATEST.items()}))
+    return new
 
 def SITE_INDEX(sid, base, idx, value):
     return SITE(sid, "%s[%r]" % (base, idx), "index", value)
 
 def META(name, value):
-    TRACE.append(("meta", name, FREEZE(value, 0, True), None, None))
     fn = SUBST.get("meta")
-    if fn is not None:
-        return fn(name, value)
-    return value
+    new = fn(name, value) if fn is not None else value
+    TRACE.append(("meta", name, FREEZE(new), None, None, {k: FREEZE(v) for k, v in LATEST.items()}))
+    return new
 
 def DECLARE(sid, name):
     fn = SUBST.get("declare")
@@ -194,6 +207,7 @@ class World:
         ns["LOG"].clear()
         ns["TRACE"].clear()
         ns["TICKS"].clear()
+        ns["LATEST"].clear()
         ns["G"] = 100
         sys.modules["pvm"].val = 7
 
@@ -210,7 +224,7 @@ class World:
         after = self.snapshot_globals()
         diff = []
         for k in sorted(set(before) | set(after), key=repr):
-            if k in ("LOG", "TRACE", "TICKS", "SUBST", "LOCALNAMES"):
+            if k in ("LOG", "TRACE", "TICKS", "SUBST", "LOCALNAMES", "LATEST"):
                 continue
             if k not in after:
                 diff.append(("removed", repr(k)))
